@@ -62,13 +62,13 @@ func (in *Interp) onStack(fn *ssa.Function) bool {
 }
 
 func (in *Interp) callStatic(fn *ssa.Function, args []Val, bindings []Val, rt types.Type, st *State, f *frame) Val {
-	if fn.Blocks == nil || in.onStack(fn) || len(in.stack) >= in.MaxDepth || (in.OpaqueFn != nil && in.OpaqueFn(fn)) {
-		return in.opaqueCall(fn.String(), fn, args, rt, st)
-	}
 	if in.Intrinsic != nil {
 		if v, ok := in.Intrinsic(fn, args, st); ok {
 			return v
 		}
+	}
+	if fn.Blocks == nil || in.onStack(fn) || len(in.stack) >= in.MaxDepth || (in.OpaqueFn != nil && in.OpaqueFn(fn)) {
+		return in.opaqueCall(fn.String(), fn, args, rt, st)
 	}
 	ret, out := in.Call(fn, args, bindings, st)
 	if in.Fail != "" {
@@ -356,7 +356,7 @@ func (in *Interp) appendBuiltin(a, b Val, rt types.Type, st *State) Val {
 			}
 			if okAll {
 				for i, v := range vals {
-					in.setCell(st, o, joinPath("", i), v)
+					in.setCellDeep(st, o, joinPath("", i), et, v)
 				}
 				return &SliceV{Obj: o, Lo: constInt(0, 64, true), Len: o.Len, Elem: et}
 			}
